@@ -79,8 +79,13 @@ claim('C19',
       'Bounded symbolic check: get_hess/get_grad/hessian_elem exact on every quadratic (all 3^k stencil regimes, k<=3 quick, 5 thorough) and linear function; on linear Poisson models the real get_godambe/FIM/GIM/LRT/Wald/score assemble H, J, cU, GIM and the statistics exactly by their definitions from the exact stencils, are invariant under bootstrap permutations and independent of cache history; sum_chi2_ppf accepts scalars and arrays.',
       'doubles as reals; log/gammaln/sqrt/chi2.cdf uninterpreted, numpy.linalg.inv replaced by an exact adjugate inverse whose contract is proved; O(eps^2) closeness to analytic closed forms outside',
       'DESIGN.md 3/C19')
+
+claim('C01',
+      'Fragment (bounded symbolic): the neutral equilibrium returned by phi_1D equals the textbook theta0*nu/x*4beta/(beta+1)^2 and is an exact fixed point of the real one-population integrator (both drivers, from tridiag / implicit_1Dx IR) at every interior frequency for any number of steps; for every density one implicit step multiplies heterozygosity by exactly 1/(1+dt*kappa/nu) and the influx adds dt*theta0/2*(1-x_1) - pinning time unit, 1/nu drift, theta0/2 influx and the beta factor for all grids/sizes/theta0/beta/dt. The convergence-to-theory part of C01 (error ~ dt, 1.5%, multi-epoch coalescent expectations, selection equilibria) is NOT claimed.',
+      'doubles as reals; tridiagonal contract + uniqueness lemma (C02); the documented scheme is taken as the reference discretisation; only gamma=0',
+      'DESIGN.md 3/C01')
 _todo = 'check not built yet (in progress in this session; see DESIGN.md for the plan)'
-for _p in ['C01','C15','C20']:
+for _p in ['C15','C20']:
     NA[_p] = _todo
 NA['C16'] = ('every path from a demes graph to a spectrum goes through the third-party demes package (attrs validators, float() coercion, '
              'math.isclose, YAML) which forces all symbolic values to concrete floats: nothing is left for a solver to quantify over (DESIGN.md section 4)')
